@@ -68,6 +68,7 @@ type Cex struct {
 	Crashes []string          `json:"crashes,omitempty"`
 	Bursts  [][2]int          `json:"bursts"`
 	Windows []string          `json:"windows,omitempty"`
+	Final   []string          `json:"final_state,omitempty"`
 }
 
 type TraceStep struct {
@@ -278,7 +279,17 @@ func (w *W) findEntry(entry string) *ssa.Function {
 	for _, sp := range loadedPkgs {
 		if sp != nil && sp.Func(entry) != nil {
 			w.entryPkg = sp
-			return sp.Func(entry)
+			fn := sp.Func(entry)
+			for _, b := range fn.Blocks {
+				for _, ins := range b.Instrs {
+					if c, ok := ins.(*ssa.Call); ok {
+						if cf := c.Call.StaticCallee(); cf != nil && cf.Name() == "vPrologueEnd" {
+							w.hasPrologue = true
+						}
+					}
+				}
+			}
+			return fn
 		}
 	}
 	panic("entry function not found: " + entry)
